@@ -437,8 +437,13 @@ def _rand_lines(rng, n, W=500, H=300, none_bl=0.0, zero=0.0):
     return specs
 
 
-def _rand_grid(rng, max_r=6, max_c=6, sloppy=False):
-    """a jittered r x c grid with missing cells; `sloppy` lets jitter exceed the clean limits"""
+def _rand_grid(rng, max_r=6, max_c=6, sloppy=False, stagger=False):
+    """a jittered r x c grid with missing cells; `sloppy` lets jitter exceed the clean limits; `stagger` builds
+    rows whose boxes share only a thin band (any two boxes of a row overlap vertically, possibly by a pixel or
+    two, far less than half their height) with all baselines of the row inside that band: still aligned rows
+    that do not overlap each other, as CleanGrid / grid_is_clean says"""
+    if stagger:
+        return _stagger_grid(rng, max_r, max_c)
     r, c = rng.randint(1, max_r), rng.randint(1, max_c)
     x = rng.randint(0, 80)
     col_l, col_r = [], []
@@ -474,6 +479,46 @@ def _rand_grid(rng, max_r=6, max_c=6, sloppy=False):
             bl = [[xx, max(top, min(bottom, base + rng.randint(-tol, tol)))] for xx in xs]
             text = None if rng.random() < 0.05 else rng.choice(['abc', '', 'q'])
             cells.append({'row': i, 'col': j, 'box': [left, top, right, bottom], 'bl': bl, 'text': text})
+    rng.shuffle(cells)
+    for n, s in enumerate(cells):
+        s['id'] = n
+    return cells
+
+
+def _stagger_grid(rng, max_r, max_c):
+    r, c = rng.randint(1, max_r), rng.randint(1, max_c)
+    x = rng.randint(0, 80)
+    cols = []
+    for _ in range(c):
+        w = rng.randint(60, 400)
+        cols.append((x, x + w))
+        x += w + rng.randint(1, 200)
+    p_missing = rng.choice([0.0, 0.1, 0.3, 0.6])
+    cells = []
+    y = rng.randint(0, 80)
+    for i in range(r):
+        reach = rng.choice([10, 25, 40, 60])
+        band_t = y + reach
+        band_b = band_t + rng.choice([1, 1, 2, 4, 9])
+        lowest = band_b
+        for j in range(c):
+            if rng.random() < p_missing:
+                continue
+            l0, r0 = cols[j]
+            w = r0 - l0
+            left, right = l0 + rng.randint(0, w // 4), r0 - rng.randint(0, w // 4)
+            # the box hangs mostly above or mostly below the common band
+            if rng.random() < 0.5:
+                top, bottom = band_t - rng.randint(reach // 2, reach), band_b + rng.randint(0, 3)
+            else:
+                top, bottom = band_t - rng.randint(0, 3), band_b + rng.randint(reach // 2, reach)
+            lowest = max(lowest, bottom)
+            k = rng.choice([1, 2, 2, 3])
+            xs = sorted(rng.randint(left, right) for _ in range(k))
+            bl = [[xx, rng.randint(band_t, band_b)] for xx in xs]
+            text = None if rng.random() < 0.05 else rng.choice(['abc', '', 'q'])
+            cells.append({'row': i, 'col': j, 'box': [left, top, right, bottom], 'bl': bl, 'text': text})
+        y = lowest + rng.randint(1, 60)
     rng.shuffle(cells)
     for n, s in enumerate(cells):
         s['id'] = n
@@ -685,10 +730,12 @@ class C15(Check):
         n_grid = 500 if quick else 9000
         for _ in range(n_grid):
             sloppy = rng.random() < 0.25
-            cells = _rand_grid(rng, sloppy=sloppy)
+            stagger = not sloppy and rng.random() < 0.25
+            cells = _rand_grid(rng, sloppy=sloppy, stagger=stagger)
             doc, flat = _grid_docs(rng, cells)
             out.append(Case('grid', {'cells': cells, 'dx': rng.randint(-3000, 3000), 'dy': rng.randint(-3000, 3000),
-                                     'docs': True, 'doc': doc, 'flat': flat}, ['sloppy' if sloppy else 'jittered']))
+                                     'docs': True, 'doc': doc, 'flat': flat},
+                            ['sloppy' if sloppy else 'staggered' if stagger else 'jittered']))
         # random document trees
         n_tree = 300 if quick else 5000
         for _ in range(n_tree):
